@@ -45,7 +45,7 @@ func c08Scenario(c *Ctx, cs c08Case) (graph, rel []rxLabel, verdict string, deta
 	reactive.VerifHook = log.hook
 	defer func() { reactive.VerifHook = nil }()
 	oldDelay := reactive.WriteThenReadDelay
-	reactive.WriteThenReadDelay = 0
+	reactive.WriteThenReadDelay = []time.Duration{0, 0, 150 * time.Microsecond}[r.Intn(3)]
 	defer func() { reactive.WriteThenReadDelay = oldDelay }()
 
 	var allMu sync.Mutex
@@ -221,6 +221,9 @@ func c08Scenario(c *Ctx, cs c08Case) (graph, rel []rxLabel, verdict string, deta
 	if e := waitQuiet("after the data changes"); e != "" {
 		return nil, nil, "harness_error", map[string]interface{}{"error": e}
 	}
+	log.mu.Lock()
+	detail["quiescent_at"] = len(log.labels)
+	log.mu.Unlock()
 	// freshness: every value in every rerunner's final output is the current version
 	for ri, rn := range runners {
 		rn.mu.Lock()
@@ -287,6 +290,10 @@ func c08One(c *Ctx, m *Model, cs c08Case) {
 	graph, rel, verdict, detail := c08Scenario(c, cs)
 	if verdict != "" {
 		rep.Fail(verdict, nil, cs, detail)
+		return
+	}
+	if kind, d := rxQuiescentCheck(m, graph, detail["quiescent_at"].(int)); kind != "" {
+		rep.Fail(kind, nil, cs, d)
 		return
 	}
 	// invalidation trace in the graph model
